@@ -172,6 +172,9 @@ def lambda_params(fn):
             if m['k'] == 'DeclRefExpr' and m['decl'].get('dk') == 'param' and m['decl']['id'] not in own:
                 ids[m['decl']['id']] = m['decl']
         body = [x for x in lam['ch'] if fn.nodes[x]['k'] == 'CompoundStmt']
+        if 'lparams' in lam:
+            # the lambda's own parameter(s): references to parameters of an enclosing lambda (captured) are not ours
+            ids = {k_: v_ for k_, v_ in ids.items() if k_ in lam['lparams']}
         if len(ids) != 1 or len(body) != 1:
             continue
         (did, d), = ids.items()
@@ -519,3 +522,26 @@ def plain_getter(f):
     if n['k'] == 'MemberExpr' and n.get('mk') == 'field' and f.nodes[f.strip(n['ch'][0], 'all')]['k'] == 'CXXThisExpr':
         return n['member']
     return None
+
+
+def const_value(fn, i, hops=3):
+    """integer constant value of expression i, looking through locals that are defined once by a constant expression"""
+    n = fn.nodes[fn.strip(i, 'all')]
+    while hops > 0 and n.get('cv') is None and n['k'] == 'DeclRefExpr' and n['decl'].get('dk') == 'local':
+        ini = local_init(fn, n['decl']['id'])
+        if ini is None:
+            return None
+        # a single definition: no assignment to the local anywhere
+        for m in fn.nodes:
+            if m['k'] in ('BinaryOperator', 'CompoundAssignOperator') and m.get('op', '').endswith('=') and m.get('op') not in ('==', '!=', '<=', '>='):
+                t = fn.nodes[fn.strip(m['ch'][0], 'all')]
+                if t['k'] == 'DeclRefExpr' and t['decl'].get('id') == n['decl']['id']:
+                    return None
+        n = fn.nodes[fn.strip(ini, 'all')]
+        while n['k'] in ('CXXConstructExpr', 'ExprWithCleanups', 'MaterializeTemporaryExpr') and (n.get('args') or n.get('ch')) and n.get('cv') is None:
+            n = fn.nodes[fn.strip((n.get('args') or n.get('ch'))[0], 'all')]
+        hops -= 1
+    try:
+        return int(n['cv']) if n.get('cv') is not None else None
+    except (TypeError, ValueError):
+        return None
